@@ -1,6 +1,14 @@
 #!/bin/bash
-# tools/try.sh <patch> <property>... : apply a patch to /repo, run the quick checks, undo.
-patch=$(realpath "$1"); shift
-git -C /repo apply "$patch" || { echo "patch does not apply"; exit 2; }
-for p in "$@"; do /verif/run.sh -property "$p" 2>&1 | tail -12; echo "exit=$?"; done
-git -C /repo checkout -- . ; git -C /repo status --short | head -3
+# tools/try.sh <patch-or-id> <property>... : apply a patch (file, seeded id or benign id) to a scratch worktree of /repo's
+# HEAD (never /repo itself), run the quick checks against it, and leave the worktree at /tmp/try_wt for inspection.
+. /verif/env.sh
+p=$1; shift
+[ -f "$p" ] || { [ -f /verif/seeded/$p/patch.diff ] && p=/verif/seeded/$p/patch.diff; }
+[ -f "$p" ] || { [ -f /verif/benign/$p/patch.diff ] && p=/verif/benign/$p/patch.diff; }
+[ -f "$p" ] || { [ -f /verif/regressions/$p.revert.diff ] && p=/verif/regressions/$p.revert.diff; }
+patch=$(realpath "$p")
+wt=/tmp/try_wt
+if [ -d $wt ]; then git -C $wt checkout -q -- . ; git -C $wt clean -fdq; git -C $wt checkout -q --detach $(git -C /repo rev-parse HEAD); else git -C /repo worktree add -q --detach $wt HEAD; fi
+git -C $wt apply "$patch" || { echo "patch does not apply"; exit 2; }
+[ -x /verif/bin/arkcheck ] || /verif/setup.sh
+for prop in "$@"; do ARK_REPO=$wt /verif/bin/arkcheck -property "$prop" -out /tmp/try_out 2>&1 | grep -E "^\s+ecs/|VIOLATION|UNDECIDED|quick:" | cut -c1-${W:-500} | head -${N:-14}; done
